@@ -70,6 +70,31 @@ def cases(d):
         for _ in range(d.randint(1, 3)):
             stmts.insert(d.randint(0, len(stmts)), gen_soft_stmt(d, g, 1))
         blocks.append({"name": "c%d" % b, "stmts": stmts})
+    rsc = [f for f in fs if f["rand"] and f["kind"] != "enum"]
+    late = None
+    if len(rsc) >= 2 and d.chance(30):
+        # softs that each name ONE field (so they start out in different rand sets), and only afterwards a hard statement
+        # that relates the fields (either operand order) and makes the softs compete: the sets merge after the softs were
+        # ranked.  The relation is a class statement after the softs, or part of the inline block of a call.
+        x, y = d.sample(rsc, 2)
+        def one(f):
+            lo_, hi_ = sem.type_range(f)
+            return ["soft", ["bin", d.choice(["==", "==", "<=", ">="]), ["f", f["name"]], ["lit", d.randint(lo_, hi_)]]]
+        softs = [one(x), one(y)] + [one(d.choice([x, y])) for _ in range(d.randint(0, 2))]
+        a_, b_ = (x, y) if d.chance(50) else (y, x)
+        k_ = d.randint(0, 99)
+        if k_ < 40:
+            rel = ["expr", ["bin", d.choice(["!=", "<", ">", "=="]), ["f", a_["name"]], ["f", b_["name"]]]]
+        elif k_ < 70:
+            rel = ["expr", ["bin", d.choice(["==", "<=", ">="]), ["bin", d.choice(["+", "^"]), ["f", a_["name"]], ["f", b_["name"]]], ["lit", d.randint(0, 7)]]]
+        else:
+            rel = ["implies", ["bin", d.choice(["==", "!="]), ["f", a_["name"]], ["lit", d.randint(0, 3)]],
+                   [["expr", ["bin", d.choice(["!=", "<", ">"]), ["f", b_["name"]], ["f", a_["name"]]]]]]
+        if d.chance(60):
+            blocks = [{"name": "c0", "stmts": softs + [rel]}]
+        else:
+            blocks = [{"name": "c0", "stmts": softs}]
+            late = rel
     calls = []
     for _ in range(d.randint(1, 3)):
         if d.chance(50):
@@ -81,6 +106,13 @@ def cases(d):
             for _ in range(d.randint(1, 2)):
                 inl.append(gen_soft_stmt(d, g, 1))
             calls.append({"kind": "randomize_with", "seed": d.seed(), "inline": inl})
+    if late is not None:
+        # the relating statement comes with a call: after an inline soft (class softs ranked first, inline soft next,
+        # then the sets merge)
+        f_ = d.choice(rsc)
+        lo_, hi_ = sem.type_range(f_)
+        calls = [{"kind": "randomize_with", "seed": d.seed(),
+                  "inline": ([["soft", ["bin", "==", ["f", f_["name"]], ["lit", d.randint(lo_, hi_)]]]] if d.chance(70) else []) + [late]}] + calls[:1]
     if d.chance(30):
         # a call that fails (contradictory inline hard constraint, optionally with an inline soft) somewhere before the
         # last call: the calls after it are judged like any other
